@@ -70,6 +70,11 @@ AND_WORDS = (' and ', ' & ')
 
 def gen_sec_group(rng, maxsec=99):
     kind = rng.choice([None, None, 'and', 'thru'])
+    if rng.random() < 0.04:
+        # a written-out list, now and then a long one: 'Sections 12, 3, 7
+        # and 30' ... 'Secs 1, 2, 3, ..., 31 & 32'
+        n = rng.choice([3, 4, 6, 12, 26, 27, 32])
+        return rng.sample(range(1, maxsec + 1), min(n, maxsec)), 'list'
     if kind is None:
         return [rng.randint(1, maxsec)], None
     if kind == 'and':
@@ -97,6 +102,10 @@ def render_sec_group(rng, nums, kind, word=None):
         return x.upper() if r < 0.05 else x.title() if r < 0.10 else x
     if kind == 'and':
         return f"{w}{pl}{sp}{nums[0]}{recase(rng.choice(AND_WORDS))}{nums[1]}"
+    if kind == 'list':
+        last = rng.choice([', ', ' and ', ' & ', ', and '])
+        return (f"{w}{pl}{sp}" + ', '.join(str(n) for n in nums[:-1])
+                + f"{recase(last)}{nums[-1]}")
     return f"{w}{pl}{sp}{nums[0]}{recase(rng.choice(THRU_WORDS))}{nums[-1]}"
 
 
